@@ -382,9 +382,15 @@ func (x *Unit) returnStmt(st *State, s *ast.ReturnStmt) *State {
 			x.setResult(st, fr, i, v)
 		}
 	}
+	if acts := x.after[s]; len(acts) > 0 && !st.dead() {
+		// actions anchored after a call that sits inside this return statement: the results are evaluated, the function
+		// has not returned yet
+		x.runActions(st, acts)
+	}
 	if fr.unitTop && x.pass == 2 && !st.dead() {
 		// vacuity guard: every return statement of the unit must be reachable under the preconditions and the assumed contracts
 		x.retOrd++
+		x.monitorsAtReturn(st, fmt.Sprintf("return#%d", x.retOrd), s)
 		if c := x.FU.Contract; c != nil && c.Dead[fmt.Sprintf("return#%d", x.retOrd)] {
 			// declared dead: the contracts of the callees make this return unreachable; check exactly that
 			x.oblige(st, "dead", fmt.Sprintf("return#%d", x.retOrd), x.tagsOr(nil), False, "this return statement is unreachable under the callee contracts (declared dead)", s)
@@ -669,7 +675,7 @@ func (x *Unit) checkInvariants(st *State, ls *LoopSpec, kind string, node ast.No
 	}
 	for _, inv := range ls.Invariants {
 		c := x.specBool(st, inv, extra)
-		x.oblige(st, kind, fmt.Sprintf("loop%s.%s", ls.ID, inv.Label), x.tagsOr(inv.Tags), c, inv.Src, node)
+		x.obligeBy(inv.By, st, kind, fmt.Sprintf("loop%s.%s", ls.ID, inv.Label), x.tagsOr(inv.Tags), c, inv.Src, node)
 	}
 }
 
@@ -678,7 +684,7 @@ func (x *Unit) assumeInvariants(st *State, ls *LoopSpec, extra map[string]Term) 
 		return
 	}
 	for _, inv := range ls.Invariants {
-		x.assume(st, x.specBool(st, inv, extra))
+		x.assumeAs(st, inv.Label, x.specBool(st, inv, extra))
 	}
 }
 
